@@ -11,6 +11,9 @@ import (
 	"reflect"
 	"sort"
 	"strings"
+	"time"
+
+	"github.com/go-sql-driver/mysql"
 
 	"github.com/samsarahq/thunder/livesql"
 	"github.com/samsarahq/thunder/sqlgen"
@@ -19,11 +22,18 @@ import (
 )
 
 type filterGen struct {
-	r     *rand.Rand
-	feats []string
+	r        *rand.Rand
+	feats    []string
+	illTyped bool // some value does not denote a value of its column's Go type
 }
 
 func (g *filterGen) feat(s string) { g.feats = append(g.feats, s) }
+func (g *filterGen) ill(s string)  { g.feats = append(g.feats, s); g.illTyped = true }
+
+// plainColumn: no tag, no Valuer/Scanner: the driver value denotes the value.
+func plainColumn(s *colSpec) bool {
+	return !s.jsonTag && !s.binaryTag && !s.stringTag && !s.isValuer
+}
 
 // value derives a filter value for column s from the field value fv of some
 // row (so that matches really occur).
@@ -42,6 +52,11 @@ func (g *filterGen) value(s *colSpec, fv reflect.Value, dv driver.Value) interfa
 			g.feat("deref")
 			return fv.Elem().Interface()
 		}
+		if isSelfNull(fv) {
+			// a pointer to a nil slice/map or Null*{Valid:false}: a second Go spelling of NULL
+			g.feat("own")
+			return fv.Interface()
+		}
 		g.feat("addr")
 		p := reflect.New(fv.Type())
 		p.Elem().Set(fv)
@@ -52,7 +67,11 @@ func (g *filterGen) value(s *colSpec, fv reflect.Value, dv driver.Value) interfa
 	case 6:
 		// the column's own SQL value as the filter value (thunder's tests do
 		// this: Filter{"uuid": []byte("foo")}, Filter{"id": int32(1)})
-		g.feat("driver_value")
+		if plainColumn(s) {
+			g.feat("driver_value")
+		} else {
+			g.ill("driver_value_of_encoded_column")
+		}
 		return dv
 	case 7:
 		// same number, other Go integer type (in range)
@@ -88,16 +107,16 @@ func (g *filterGen) value(s *colSpec, fv reflect.Value, dv driver.Value) interfa
 		// another type altogether
 		switch g.r.Intn(4) {
 		case 0:
-			g.feat("foreign_string")
+			g.ill("foreign_string")
 			return "5"
 		case 1:
-			g.feat("foreign_int")
+			g.ill("foreign_int")
 			return int64(5)
 		case 2:
-			g.feat("foreign_bytes")
+			g.ill("foreign_bytes")
 			return []byte("foo")
 		default:
-			g.feat("foreign_bool")
+			g.ill("foreign_bool")
 			return true
 		}
 	default:
@@ -105,12 +124,12 @@ func (g *filterGen) value(s *colSpec, fv reflect.Value, dv driver.Value) interfa
 		switch s.base.Kind() {
 		case reflect.Int8, reflect.Int16, reflect.Int32, reflect.Uint8, reflect.Uint16, reflect.Uint32:
 			if n, ok := dv.(int64); ok && s.intBits != 0 {
-				g.feat("out_of_range_int")
+				g.ill("out_of_range_int")
 				return n + (int64(1) << uint(s.intBits))
 			}
 		case reflect.Float32:
 			if s.isFloat32 {
-				g.feat("inexact_float32")
+				g.ill("inexact_float32")
 				return 0.1
 			}
 		}
@@ -160,16 +179,34 @@ func showFilter(f sqlgen.Filter) map[string]string {
 	return m
 }
 
+// decodedForm returns the row as MySQL query results (text protocol) decode
+// it: the rows a tester meets were decoded from MySQL, never hand-built.
+func (c *caseCtx) decodedForm(row reflect.Value, choices []colChoice) (reflect.Value, []interface{}, bool) {
+	vals, err := c.z.schema.UnbuildStruct(c.ti.name, row.Interface())
+	if err != nil {
+		return row, nil, false
+	}
+	text := make([]driver.Value, len(vals))
+	for k := range vals {
+		text[k] = encode(vals[k], choices[k], pQueryText)
+	}
+	y, err := c.z.schema.BuildStruct(c.ti.name, text)
+	if err != nil {
+		return row, nil, false
+	}
+	return reflect.ValueOf(y), vals, true
+}
+
 func (c *caseCtx) checkFilters(choices []colChoice) {
 	r := c.run.Rand("filter", c.i)
 	ti := c.ti
-	// rows R: x, an unrelated row, hybrids, and x as decoded from the text form
+	// rows R: x, an unrelated row, two hybrids - each as decoded from MySQL's text form
 	x2, err := ti.genRow(c.run.Rand("row2", c.i), r.Intn(2) == 0)
 	if err != nil {
 		c.run.Broken(err.Error())
 		return
 	}
-	rows := []reflect.Value{c.x, x2}
+	raw := []reflect.Value{c.x, x2}
 	for h := 0; h < 2; h++ {
 		hy := reflect.New(ti.typ)
 		hy.Elem().Set(c.x.Elem())
@@ -178,18 +215,23 @@ func (c *caseCtx) checkFilters(choices []colChoice) {
 				hy.Elem().FieldByIndex(s.fieldIdx).Set(x2.Elem().FieldByIndex(s.fieldIdx))
 			}
 		}
-		rows = append(rows, hy)
+		raw = append(raw, hy)
 	}
-	text := make([]driver.Value, len(c.vals))
-	for k := range c.vals {
-		text[k] = encode(c.vals[k], choices[k], pQueryText)
+	// column types for decoding must hold any row: take the widest choice
+	wide := make([]colChoice, len(choices))
+	for k := range wide {
+		wide[k] = colChoice{intBits: 64, dt6: true, lob: true}
 	}
-	if y, err := c.z.schema.BuildStruct(ti.name, text); err == nil {
-		rows = append(rows, reflect.ValueOf(y))
-	}
-	vals2, err := c.z.schema.UnbuildStruct(ti.name, x2.Interface())
-	if err != nil {
-		return
+	var rows []reflect.Value
+	var rowVals [][]interface{}
+	for _, rw := range raw {
+		y, vals, ok := c.decodedForm(rw, wide)
+		if !ok {
+			c.run.Count("filter:row_not_decodable", 1)
+			return
+		}
+		rows = append(rows, y)
+		rowVals = append(rowVals, vals)
 	}
 
 	for round := 0; round < 3; round++ {
@@ -210,19 +252,21 @@ func (c *caseCtx) checkFilters(choices []colChoice) {
 		perm := r.Perm(len(ti.specs))
 		for _, k := range perm[:min(ncols, len(perm))] {
 			s := ti.specs[k]
+			// values come from the hand-built rows (x, x2): e.g. times in their original zone
+			src := 0
 			if r.Intn(3) == 0 {
-				f[s.name] = g.value(s, x2.Elem().FieldByIndex(s.fieldIdx), vals2[k])
-			} else {
-				f[s.name] = g.value(s, c.x.Elem().FieldByIndex(s.fieldIdx), c.vals[k])
+				src = 1
 			}
+			f[s.name] = g.value(s, raw[src].Elem().FieldByIndex(s.fieldIdx), rowVals[src][k])
 		}
 		sort.Strings(g.feats)
-		c.checkOneFilter(f, rows, g.feats)
+		c.checkOneFilter(f, rows, g)
 	}
 }
 
-func (c *caseCtx) checkOneFilter(f sqlgen.Filter, rows []reflect.Value, feats []string) {
+func (c *caseCtx) checkOneFilter(f sqlgen.Filter, rows []reflect.Value, fg *filterGen) {
 	ti := c.ti
+	feats := fg.feats
 	for _, ft := range feats {
 		c.run.Count("filter_value:"+ft, 1)
 	}
@@ -238,10 +282,20 @@ func (c *caseCtx) checkOneFilter(f sqlgen.Filter, rows []reflect.Value, feats []
 		}
 		return w
 	}
+	// Filters with a value that does not denote a value of the column's type
+	// (a string for an integer column, 300 for an int8 column ...) are outside the
+	// quantifier: what happens to them is recorded, not judged.
+	report := func(class string, w map[string]interface{}) {
+		if fg.illTyped {
+			c.run.Count("observation_illtyped_filter:"+fmt.Sprint(w["what"]), 1)
+			return
+		}
+		c.violate(class, w)
+	}
 	var pb *thunderpb.SQLFilter
 	var err error
 	if pn := safely(func() { pb, err = livesql.FilterToProto(c.z.schema, ti.name, f) }); pn != nil {
-		c.violate(classifyFilterPanic(c, f, "FilterToProto"), fw(map[string]interface{}{"what": "FilterToProto panicked (neither an error nor a filter)", "panic": fmt.Sprint(pn)}))
+		report(c.classifyFilterPanic(f), fw(map[string]interface{}{"what": "FilterToProto panicked (neither an error nor a filter)", "panic": fmt.Sprint(pn)}))
 		return
 	}
 	if err != nil {
@@ -250,7 +304,7 @@ func (c *caseCtx) checkOneFilter(f sqlgen.Filter, rows []reflect.Value, feats []
 	}
 	want := c.testAll(f, rows)
 	if want.panic != "" {
-		c.violate(classifyFilterPanic(c, f, "Test"), fw(map[string]interface{}{"what": "MakeTester/Test panicked on a filter FilterToProto accepted", "panic": want.panic}))
+		report(c.classifyFilterPanic(f), fw(map[string]interface{}{"what": "MakeTester/Test panicked on a filter FilterToProto accepted", "panic": want.panic}))
 		return
 	}
 
@@ -259,7 +313,7 @@ func (c *caseCtx) checkOneFilter(f sqlgen.Filter, rows []reflect.Value, feats []
 		var g sqlgen.Filter
 		var err error
 		if pn := safely(func() { table, g, err = livesql.FilterFromProto(c.z.schema, src) }); pn != nil {
-			c.violate("", fw(map[string]interface{}{"what": "FilterFromProto panicked", "stage": stage, "panic": fmt.Sprint(pn)}))
+			report("", fw(map[string]interface{}{"what": "FilterFromProto panicked", "stage": stage, "panic": fmt.Sprint(pn)}))
 			return
 		}
 		if err != nil {
@@ -268,7 +322,7 @@ func (c *caseCtx) checkOneFilter(f sqlgen.Filter, rows []reflect.Value, feats []
 		}
 		c.run.Count("filter:round_tripped:"+stage, 1)
 		if table != ti.name {
-			c.violate("", fw(map[string]interface{}{"what": "table name changed through the protobuf encoding", "stage": stage, "got": table}))
+			report("", fw(map[string]interface{}{"what": "table name changed through the protobuf encoding", "stage": stage, "got": table}))
 		}
 		got := c.testAll(g, rows)
 		for _, h := range want.hits {
@@ -277,8 +331,16 @@ func (c *caseCtx) checkOneFilter(f sqlgen.Filter, rows []reflect.Value, feats []
 			}
 		}
 		if got.String() != want.String() {
-			c.violate(classifyFilterMismatch(c, f, g, rows, want, got), fw(map[string]interface{}{"what": "the filter matches different rows after FilterToProto/FilterFromProto", "stage": stage,
-				"decoded_filter": showFilter(g), "test_f": want.String(), "test_g": got.String()}))
+			w := fw(map[string]interface{}{"what": "the filter matches different rows after FilterToProto/FilterFromProto", "stage": stage,
+				"decoded_filter": showFilter(g), "test_f": want.String(), "test_g": got.String()})
+			classes := c.classifyFilterMismatch(f, rows, got)
+			if fg.illTyped || len(classes) == 0 {
+				report("", w)
+				return
+			}
+			for _, cl := range classes {
+				c.violate(cl, w)
+			}
 		}
 	}
 	compare("direct", pb)
@@ -286,7 +348,7 @@ func (c *caseCtx) checkOneFilter(f sqlgen.Filter, rows []reflect.Value, feats []
 	var wire []byte
 	var merr error
 	if pn := safely(func() { wire, merr = pb.Marshal() }); pn != nil {
-		c.violate("", fw(map[string]interface{}{"what": "SQLFilter.Marshal panicked", "panic": fmt.Sprint(pn)}))
+		report("", fw(map[string]interface{}{"what": "SQLFilter.Marshal panicked", "panic": fmt.Sprint(pn)}))
 		return
 	}
 	if merr != nil {
@@ -295,14 +357,95 @@ func (c *caseCtx) checkOneFilter(f sqlgen.Filter, rows []reflect.Value, feats []
 	}
 	pb2 := &thunderpb.SQLFilter{}
 	if err := pb2.Unmarshal(wire); err != nil {
-		c.violate("", fw(map[string]interface{}{"what": "SQLFilter does not unmarshal from its own Marshal output", "err": err.Error()}))
+		report("", fw(map[string]interface{}{"what": "SQLFilter does not unmarshal from its own Marshal output", "err": err.Error()}))
 		return
 	}
 	compare("wire", pb2)
 }
 
-func classifyFilterPanic(c *caseCtx, f sqlgen.Filter, where string) string { return "" }
-
-func classifyFilterMismatch(c *caseCtx, f, g sqlgen.Filter, rows []reflect.Value, want, got testOutcome) string {
+// classifyFilterPanic recognises the defect "a filter value whose type is not
+// exactly the column's type panics for a non-pointer `binary` column whose
+// pointer type has Marshal() or is a proto.Message" (reflect.Set in
+// nonPointerMarshal / nonPointerProtoMessage).
+func (c *caseCtx) classifyFilterPanic(f sqlgen.Filter) string {
+	for _, s := range c.ti.specs {
+		v, ok := f[s.name]
+		if !ok || !s.binaryTag || s.ptr || v == nil {
+			continue
+		}
+		pt := reflect.PtrTo(s.base)
+		_, hasMarshal := pt.MethodByName("Marshal")
+		_, isProto := pt.MethodByName("ProtoMessage")
+		if (hasMarshal || isProto) && reflect.TypeOf(v) != s.base {
+			return "filter-value-type-panics-nonpointer-marshaler"
+		}
+	}
 	return ""
+}
+
+// classifyFilterMismatch explains a mismatch by re-testing normalised copies
+// of f: (a) every time value moved to UTC (same instant) - the tester compares
+// time.Time with ==, so equal instants in different locations differ;
+// (b) pointers to zero values on implicitnull columns dereferenced - the
+// Valuer applies implicitnull to the pointer, not to the value it points to.
+func (c *caseCtx) classifyFilterMismatch(f sqlgen.Filter, rows []reflect.Value, got testOutcome) []string {
+	norm := func(utc, deref bool) (sqlgen.Filter, bool, bool) {
+		n := sqlgen.Filter{}
+		didUTC, didDeref := false, false
+		for k, v := range f {
+			n[k] = v
+			s := c.ti.specByName(k)
+			rv := reflect.ValueOf(v)
+			if deref && s != nil && s.implNull && rv.IsValid() && rv.Kind() == reflect.Ptr && !rv.IsNil() && rv.Elem().IsZero() {
+				n[k] = rv.Elem().Interface()
+				didDeref = true
+				continue
+			}
+			if utc {
+				if nv, ok := timesToUTC(v); ok {
+					n[k] = nv
+					didUTC = true
+				}
+			}
+		}
+		return n, didUTC, didDeref
+	}
+	same := func(n sqlgen.Filter) bool { return c.testAll(n, rows).String() == got.String() }
+	if n, did, _ := norm(true, false); did && same(n) {
+		return []string{"filter-time-location-equality"}
+	}
+	if n, _, did := norm(false, true); did && same(n) {
+		return []string{"filter-implicitnull-pointer-value"}
+	}
+	if n, d1, d2 := norm(true, true); d1 && d2 && same(n) {
+		return []string{"filter-time-location-equality", "filter-implicitnull-pointer-value"}
+	}
+	return nil
+}
+
+// timesToUTC returns v with a contained non-UTC time moved to UTC.
+func timesToUTC(v interface{}) (interface{}, bool) {
+	switch t := v.(type) {
+	case time.Time:
+		if t.Location() != time.UTC {
+			return t.UTC(), true
+		}
+	case *time.Time:
+		if t != nil && t.Location() != time.UTC {
+			u := t.UTC()
+			return &u, true
+		}
+	case mysql.NullTime:
+		if t.Valid && t.Time.Location() != time.UTC {
+			t.Time = t.Time.UTC()
+			return t, true
+		}
+	case *mysql.NullTime:
+		if t != nil && t.Valid && t.Time.Location() != time.UTC {
+			u := *t
+			u.Time = u.Time.UTC()
+			return &u, true
+		}
+	}
+	return v, false
 }
